@@ -370,6 +370,93 @@ theorem incoming_not_misrouted (localID r1 r2 : Bytes) (t1 t2 : Tracker) (hne : 
   injection h1' with h1'
   exact hne h1'.symm
 
+/-! ### which peers get a session: block list, signaling ID, `incomingSessions` -/
+
+/-- A peer on the block list gets no session by any route: `DialPeer` returns at once without
+touching the tracker table, the incoming signal handler does not answer a signaling session with
+it (so none of its signals is ever decoded or routed), and `GetPeerDialer` offers no dialer for
+it — whatever else the configuration says (`AllPeers`, a `Dialers` entry). -/
+theorem blocked_peer_gets_no_session (t : Transport) (p : Bytes) (h : idB58Encode p ∈ t.blockPeers) :
+    t.dialPeer p = .refused ∧ (∀ sg l, t.incoming sg l p = none) ∧ t.offersDialer p = false := by
+  have hb : t.blocked p = true := by
+    unfold Transport.blocked
+    exact List.contains_iff_mem.mpr h
+  refine ⟨by simp [Transport.dialPeer, hb], fun sg l => by simp [Transport.incoming, Transport.answers, hb],
+    by simp [Transport.offersDialer, hb]⟩
+
+/-- A session only ever exists for the peer that was dialed or whose signaling session was
+answered: a tracker yielded by `DialPeer(p)` or by a signal on the session (sg, l, r) is the
+tracker of `addSessionTrackerRef` for exactly that peer — it hands exactly that peer to the
+Quic/TLS constructors — and that peer is not blocked; the handler only answers sessions of the
+transport's own signaling ID and own local peer. -/
+theorem session_only_for_dialed_or_answered_peer (t : Transport) :
+    (∀ p tk, t.dialPeer p = .tracker tk →
+      t.blocked p = false ∧ dialTracker t.localID p = some tk) ∧
+    (∀ sg l r tk, t.incoming sg l r = some tk →
+      sg = t.signalingID ∧ idB58Encode l = idB58Encode t.localID ∧ t.blocked r = false ∧
+      incomingTracker t.localID r = some tk ∧ dialTracker t.localID r = some tk) := by
+  constructor
+  · intro p tk h
+    unfold Transport.dialPeer at h
+    cases hb : t.blocked p with
+    | true => simp [hb] at h
+    | false =>
+      simp only [hb, Bool.false_eq_true, ↓reduceIte] at h
+      cases hd : dialTracker t.localID p with
+      | none => simp [hd] at h
+      | some tk' =>
+        simp only [hd, Dial.tracker.injEq] at h
+        exact ⟨rfl, by rw [h]⟩
+  · intro sg l r tk h
+    unfold Transport.incoming at h
+    cases ha : t.answers sg l r with
+    | false => simp [ha] at h
+    | true =>
+      simp only [ha, ↓reduceIte] at h
+      unfold Transport.answers at ha
+      simp only [Bool.and_eq_true, beq_iff_eq, Bool.not_eq_eq_eq_not, Bool.not_true] at ha
+      exact ⟨ha.1.1, ha.1.2, ha.2, h, h⟩
+
+/-- The `incomingSessions` table does not outlive the signaling session: once `Resolve` has
+returned (its deferred function ran) the session's remote peer is no longer listed, other
+entries are untouched, and a table that only held this resolver's entry is empty again. -/
+theorem incoming_table_clean (tab : List Bytes) (r : Bytes) :
+    r ∉ incomingExit (incomingEnter tab r) r ∧
+    (∀ q, q ≠ r → (q ∈ incomingExit (incomingEnter tab r) r ↔ q ∈ tab)) ∧
+    incomingExit (incomingEnter [] r) r = [] := by
+  refine ⟨by simp [incomingExit], ?_, by simp [incomingExit, incomingEnter]⟩
+  intro q hq
+  unfold incomingExit incomingEnter
+  by_cases hc : r ∈ tab
+  · simp [hc, hq]
+  · simp [hc, hq]
+
+/-- Shape of the code the `Transport` model stands for (regenerated on every run from webrtc.go,
+handler.go, session.go): `DialPeer` and `GetPeerDialer` start with the block-list guard on
+`peerID.String()` and return nothing for a blocked peer; `Resolve`'s deferred function removes
+`incomingSessions[remotePeerIDStr]` when it still is this resolver's reference and releases the
+reference; `executeLink` hands the transport's own UUID, peer ID and local address (and the Quic
+session, from which `NewLink` takes the verified remote identity) to `transport_quic.NewLink`. -/
+theorem block_code_shape :
+    Gen.WebRtcSession.dialGuards = ["slices.Contains(w.conf.GetBlockPeers(), peerIDStr) => return nil, false, nil"] ∧
+    Gen.WebRtcSession.peerDialerGuards = ["slices.Contains(w.conf.GetBlockPeers(), peerIDStr) => return nil, nil"] ∧
+    Gen.WebRtcSession.peerDialerPeerIDStr = "peerID.String()" ∧
+    Gen.WebRtcSession.resolveCleanup =
+      ["if ref != nil", "if r.t.incomingSessions[remotePeerIDStr] == ref", "delete(r.t.incomingSessions, remotePeerIDStr)",
+       "broadcast()", "ref.Release()"] ∧
+    Gen.WebRtcSession.newLinkArgs =
+      ["ctx", "s.le", "&transport_quic.Opts{}", "s.w.GetUUID()", "s.w.peerID", "localAddr", "sess", "closed"] ∧
+    Gen.WebRtcSession.executeLinkLocalAddr = "peer.NewNetAddr(s.w.peerID)" := by
+  repeat' constructor
+
+/-- Non-vacuity of the block-list theorems: a transport that blocks the text of peer `[7]`; the
+table clean-up on a table that holds another entry. -/
+example : (Transport.mk [1] [2] [idB58Encode [7]] true []).dialPeer [7] = .refused ∧
+    (Transport.mk [1] [2] [idB58Encode [7]] true []).offersDialer [8] = true ∧
+    (Transport.mk [1] [2] [] false []).answers [2] [1] [7] = true ∧
+    (Transport.mk [1] [2] [idB58Encode [7]] false []).answers [2] [1] [7] = false ∧
+    incomingExit (incomingEnter [[5]] [6]) [6] = [[5]] := by decide
+
 /-- Non-vacuity: a concrete well-formed SDP signal round-trips through the codec, and the toy
 primitives satisfy the laws the privacy theorems assume (see C12). -/
 example : unmarshal (marshal { body := .sdp { txSeqno := 3, sdpType := [111], sdp := [118, 61, 48] } }) =
